@@ -191,38 +191,48 @@ var neutralisers = map[string]func(*Case) (*Case, bool){}
 // classify attributes a violation to an open known finding, if neutralising that
 // finding's trigger (and nothing else) makes the case pass.
 func classify(prop Property, c *Case, findings []knownFinding, v *Violation) []*knownFinding {
-	var applicable []*knownFinding
-	for i := range findings {
-		f := &findings[i]
-		if f.Property != prop.ID() || f.Status != "open" {
-			continue
-		}
-		if f.OnlyIf != "" && v != nil {
-			if ok, _ := regexp.MatchString(f.OnlyIf, v.Detail); !ok {
+	// Neutralise one open finding's trigger at a time, each time against the violation the
+	// case currently shows (a finding with OnlyIf applies only to violations it matches).
+	// The case is attributed iff some sequence of neutralisations makes it pass; the moment
+	// nothing applicable is left and it still fails, it is a violation of its own.
+	cur, curV := c, v
+	var used []*knownFinding
+	for iter := 0; iter < 5; iter++ {
+		progressed := false
+		for i := range findings {
+			f := &findings[i]
+			if f.Property != prop.ID() || f.Status != "open" || neutralisers[f.Neutraliser] == nil {
 				continue
 			}
+			already := false
+			for _, u := range used {
+				if u == f {
+					already = true
+				}
+			}
+			if already {
+				continue
+			}
+			if f.OnlyIf != "" && curV != nil {
+				if ok, _ := regexp.MatchString(f.OnlyIf, curV.Detail); !ok {
+					continue
+				}
+			}
+			nc, changed := neutralisers[f.Neutraliser](cur)
+			if !changed {
+				continue
+			}
+			v2, _ := runCheck(prop, nc)
+			used = append(used, f)
+			if v2 == nil {
+				return used
+			}
+			cur, curV = nc, v2
+			progressed = true
+			break
 		}
-		nz := neutralisers[f.Neutraliser]
-		if nz == nil {
-			continue
-		}
-		nc, changed := nz(c)
-		if !changed {
-			continue
-		}
-		applicable = append(applicable, f)
-		if v, _ := runCheck(prop, nc); v == nil {
-			return []*knownFinding{f}
-		}
-	}
-	if len(applicable) > 1 {
-		// several known triggers in one case: all of them neutralised together
-		nc := c
-		for _, f := range applicable {
-			nc, _ = neutralisers[f.Neutraliser](nc)
-		}
-		if v, _ := runCheck(prop, nc); v == nil {
-			return applicable
+		if !progressed {
+			return nil
 		}
 	}
 	return nil
